@@ -46,8 +46,8 @@ def kill_group(pgid):
 def run_fresh(recipe, timeout=60, workdir=None):
     """ run the recipe in a fresh interpreter; returns dict with 'obs' (list
     or None), 'timeout' (bool), 'rc', 'wall', 'err' """
-    fd, path = tempfile.mkstemp(prefix='recipe_', suffix='.json',
-                                dir=workdir or recipe['dir'])
+    base = workdir or recipe.get('dir') or recipe['batch'][0]['dir']
+    fd, path = tempfile.mkstemp(prefix='recipe_', suffix='.json', dir=base)
     with os.fdopen(fd, 'w') as f:
         json.dump(recipe, f)
     env = dict(os.environ, SK_REPO=vlib.REPO, PYTHONHASHSEED='0')
@@ -58,7 +58,7 @@ def run_fresh(recipe, timeout=60, workdir=None):
         p = subprocess.Popen([sys.executable,
                               os.path.join(HERE, 'sk_child.py'), path],
                              stdout=out, stderr=subprocess.STDOUT, env=env,
-                             start_new_session=True, cwd=recipe['dir'])
+                             start_new_session=True, cwd=base)
         timed_out = False
         try:
             rc = p.wait(timeout=timeout)
@@ -85,7 +85,10 @@ def run_fresh(recipe, timeout=60, workdir=None):
             os.unlink(q)
         except OSError:
             pass
+    started = [int(x[len('@@START@@'):]) for x in text.splitlines()
+               if x.startswith('@@START@@')]
     return {'obs': obs, 'timeout': timed_out, 'rc': rc, 'wall': wall,
+            'last_started': started[-1] if started else None,
             'err': None if obs is not None else text[-1500:]}
 
 
